@@ -672,8 +672,19 @@ fn main() {
     rep.assume("cabi-ref::signature is the canonical core signature (MAX_FLAT_PARAMS=16, async lower 4, MAX_FLAT_RESULTS=1, task.return flat<=16)");
     rep.assume("combinations whose async flag contradicts the variant, and async-variant lowering through abi::call, have no defined convention: panics there are counted, successful runs get the parameter-side checks only");
     rep.extra.insert("whitelist_explicit".into(), json!(EXPLICIT.iter().map(|w| json!({"variant": w.0, "direction": w.1, "async": w.2, "condition": w.3, "marker": w.5})).collect::<Vec<_>>()));
+    rep.extra.insert(
+        "combinations_used_by_backends_in_this_repository".into(),
+        json!({
+            "by": "source inspection of every abi::call call site (crates/*/src)",
+            "GuestImport:lower:sync": ["rust", "c", "cpp", "csharp", "go", "moonbit", "d"],
+            "GuestExport:lift:sync": ["rust", "c", "cpp", "csharp", "go", "moonbit", "d"],
+            "GuestExportAsync:lift:async": ["rust", "c", "go", "moonbit"],
+            "GuestExport:lift:async": ["csharp"],
+            "other entry points": "lower_flat / lower_to_memory / lift_from_memory (rust, go, csharp, moonbit: async imports, stream/future payloads), post_return (rust, c, cpp, csharp, moonbit, d), deallocate_lists_in_types / deallocate_lists_and_own_in_types (rust, moonbit)",
+        }),
+    );
     let (nrandom, nsets) = match tier_name.as_str() {
-        "thorough" => (600, 10),
+        "thorough" => (3000, 10),
         "miri" => (0, 1),
         _ => (50, 3),
     };
